@@ -152,7 +152,11 @@ func (u *upstream) RoundTrip(req *http.Request) (*http.Response, error) {
 			ContentLength: 64, Body: io.NopCloser(io.MultiReader(strings.NewReader("ok"), errReader{})), Request: req}, nil
 	}
 	rec := httptest.NewRecorder()
-	rec.WriteHeader(500)
+	if o == "404" { // a 4xx is a failed attempt like any other: the same body is sent again within the window
+		rec.WriteHeader(404)
+	} else {
+		rec.WriteHeader(500)
+	}
 	return rec.Result(), nil
 }
 
@@ -256,6 +260,10 @@ func runSchedule(t *testing.T, tw *trace.Writer, c *scase, idx int, res *vh.Resu
 				}
 				if o.Op == "dispbad" {
 					tags = append(tags, "x:\xff\xfe")
+					if seq%2 == 1 { // several such tags on one series
+						tags = append(tags, "y:\xc3(", "z\x80:ok")
+						res.Hit("several-invalid-utf8-tags")
+					}
 					res.Hit("invalid-utf8-tag")
 				}
 				var pts []map[string]any
